@@ -60,15 +60,18 @@ def families(s: int):
                [("x", F, [1, 4, 2]), ("c", B, [])], [("y", F, [1, 4, 2])], [nh.from_array(sc, "s"), nh.from_array(bi, "b")], s)
     out.append(("If(GroupNormalization | Mul) + Relu", m, [("x", F, (1, 4, 2)), ("c", B, ())]))
     # DFT
-    for axis in (1, 2):
+    for axis in (0, 1, 2, -2, -3):
         if s >= 20:
             nodes = [oh.make_node("DFT", ["x", "", "ax"], ["y"])]
             inits = [nh.from_array(np.array(axis, dtype=np.int64), "ax")]
         else:
             nodes = [oh.make_node("DFT", ["x"], ["y"], axis=axis)]
             inits = []
-        m = _model(nodes, [("x", F, [1, 3, 2, 1])], [("y", F, [1, 3, 2, 2])], inits, s)
-        out.append((f"DFT axis={axis}", m, [("x", F, (1, 3, 2, 1))]))
+        m = _model(nodes, [("x", F, [2, 3, 2, 1])], [("y", F, [2, 3, 2, 2])], inits, s)
+        out.append((f"DFT axis={axis}", m, [("x", F, (2, 3, 2, 1))]))
+    # DFT with the axis left at its default (attribute default 1 before opset 20, input default -2 from 20 on)
+    m = _model([oh.make_node("DFT", ["x"], ["y"])], [("x", F, [2, 3, 2, 1])], [("y", F, [2, 3, 2, 2])], [], s)
+    out.append(("DFT default axis", m, [("x", F, (2, 3, 2, 1))]))
     # GridSample
     for mode in ("linear", "nearest", "cubic"):
         old = {"linear": "bilinear", "cubic": "bicubic", "nearest": "nearest"}[mode]
@@ -172,6 +175,9 @@ def _worker(payload):
         if v["verdict"] == "cex":
             feeds = R.np_inputs(v["inputs"]) if v.get("inputs") else {n: np.zeros(sh, dtype=DT(dt).numpy()) for n, dt, sh in spec}
             rep = R.replay_pair(mp.SerializeToString(), new.SerializeToString(), feeds)
+            if not rep["reproduced"] and rec["uf"]:
+                rep, feeds = R.replay_pair_random(mp.SerializeToString(), new.SerializeToString(), spec, seed=common.seed())
+                rec["replay_inputs_sampled"] = True
             rec["replay"] = {k: rep.get(k) for k in ("reproduced", "difference", "ort_err_a", "ort_err_b")}
             rec["replay_record"] = {"engine": "S", "inputs": {n: {"dtype": DT(dt).name, "shape": list(sh), "values": feeds[n].tolist()} for n, dt, sh in spec},
                                     "rebuild": {"kind": "pair", "transformation": f"convert_version({s}->{t}, entry={entry}, fallback={fallback})",
